@@ -194,7 +194,8 @@ def check_ir_design(name, d, acc, groups=GROUPS, inversions=(), seam=True, perms
     seq2 = rec.record(dut.tick)
     fails += check_order(seq2, nodes, req, ffkeys, what + ":tick", 2)
     for f in fails:
-      acc.violation(f[0], dict(base, **extra), f[1], f[2], f[3])
+      # explicit-constraint designs carry their name in the signature (known findings are keyed by it); families by their first word
+      acc.violation(f[0] + (":" + name if name.startswith("explicit:") else ""), dict(base, **extra), f[1], f[2], f[3])
     acc.count("executions"); acc.count("order_checks", 3)
     acc.add("orders", (name, tuple(map(str, seq1))))
     return seq1
@@ -259,6 +260,11 @@ def f_explicit():
   yield "explicit:inverted-RD", irgen.comp("Ex3", base(), blocks=[o, rd, wr], constraints=[(("RD", ref("X")), ("U", "up_w"))]), (("s:up_r", "s:up_w"),)
   # 5. inversion through U(reader) < WR(x)
   yield "explicit:inverted-WR", irgen.comp("Ex4", base(), blocks=[o, rd, wr], constraints=[(("U", "up_r"), ("WR", ref("X")))]), (("s:up_r", "s:up_w"),)
+  # 5b. the same inversions when the writer writes the signal slice by slice / the reader reads a slice of it
+  wr_s = ("up_w", "comb", [("=", ref("X", ("s", 0, 2)), ref("in_", ("s", 0, 2))), ("=", ref("X", ("s", 2, 4)), ref("in_", ("s", 2, 4)))])
+  rd_s = ("up_r", "comb", [("=", ref("Y"), ("call", "zext", ref("X", ("s", 1, 3)), ("n", 4)))])
+  yield "explicit:inverted-WR:sliced-writer", irgen.comp("Ex4s", base(), blocks=[o, rd, wr_s], constraints=[(("U", "up_r"), ("WR", ref("X")))]), (("s:up_r", "s:up_w"),)
+  yield "explicit:inverted-RD:sliced-reader", irgen.comp("Ex3s", base(), blocks=[o, rd_s, wr], constraints=[(("RD", ref("X")), ("U", "up_w"))]), (("s:up_r", "s:up_w"),)
   # 6. ordering of two otherwise independent blocks
   sig2 = [("in_", "in", B(4), ()), ("A", "wire", B(4), ()), ("Bw", "wire", B(4), ()), ("out", "out", B(4), ())]
   a = ("up_a", "comb", [("=", ref("A"), ref("in_"))])
